@@ -96,7 +96,7 @@ type c05fault struct {
 var c05fresh = map[byte]string{'@': "@zz_undefined", '%': "%zz_undefined", '$': "$zz_undefined", '!': "!4111222333"}
 
 // c05nearMaxDevs: near-miss names are tried on bases with at most this many deviations.
-var c05nearMaxDevs = 0
+var c05nearMaxDevs = 1
 
 // c05nearMisses returns look-alikes of a plain (unquoted, non-numeric) identifier token.
 func c05nearMisses(tok string) []string {
@@ -432,7 +432,7 @@ func runC05(c *fw.Check) {
 	var viols []vrec
 	nfaults, benign, sampled, sampledOK := 0, 0, 0, 0
 	if !c.Quick() {
-		c05nearMaxDevs = 1
+		c05nearMaxDevs = 2
 	}
 	fw.ParallelFor(len(bases), func(bi int) {
 		if c.OverBudget() {
